@@ -4,6 +4,7 @@ import (
 	"fmt"
 	"go/token"
 	"go/types"
+	"path/filepath"
 	"strings"
 
 	"golang.org/x/tools/go/ssa"
@@ -1070,6 +1071,9 @@ func (ex *Exec) doPanic(fr *Frame, st *State, pc *Term, x *ssa.Panic) {
 func (ex *Exec) goStmt(fr *Frame, st *State, pc *Term, x *ssa.Go) {
 	// the spawned function runs on its own; only its precondition is checked here
 	cc := &x.Call
+	if c := ex.curContract; c != nil && c.GoBodies && !fr.spec {
+		ex.goBody(fr, st, pc, x)
+	}
 	if fn := cc.StaticCallee(); fn != nil {
 		if c := ex.V.contractFor(fn); c != nil {
 			var args []Value
@@ -1090,6 +1094,47 @@ func (ex *Exec) goStmt(fr *Frame, st *State, pc *Term, x *ssa.Go) {
 			ex.checkRequires(fr, st, pc, fn, c, nil, binds, x.Pos())
 		}
 	}
+}
+
+// goBody ("go-bodies" in the contract of the function under verification): the started function has no
+// contract of its own, so its body is executed once, on a copy of the state at the go statement, for its
+// safety obligations (nil dereferences of what it captured, ...). This checks the goroutine as if it began
+// to run at once and alone; what it does to shared state is dropped. A body outside the supported subset
+// (channel operations, select) is not checked and is listed as such.
+func (ex *Exec) goBody(fr *Frame, st *State, pc *Term, x *ssa.Go) {
+	cc := &x.Call
+	var fn *ssa.Function
+	var args, binds []Value
+	if mc, ok := cc.Value.(*ssa.MakeClosure); ok {
+		fn = mc.Fn.(*ssa.Function)
+		for _, b := range mc.Bindings {
+			binds = append(binds, ex.val(fr, st, b))
+		}
+	} else if f := cc.StaticCallee(); f != nil && !cc.IsInvoke() {
+		fn = f
+	}
+	if fn == nil || len(fn.Blocks) == 0 || !ex.V.inRepo(fn) || ex.V.contractFor(fn) != nil {
+		return
+	}
+	for _, a := range cc.Args {
+		args = append(args, ex.val(fr, st, a))
+	}
+	where := ex.V.fset.Position(x.Pos())
+	nObl := len(ex.obls)
+	func() {
+		defer func() {
+			if r := recover(); r != nil {
+				if u, ok := r.(Unsupported); ok {
+					ex.obls = ex.obls[:nObl] // a partly executed body proves nothing
+					ex.V.assumedAt[fmt.Sprintf("goroutine started at %s:%d (%s) not checked: %s", filepath.Base(where.Filename), where.Line, fn.Name(), u.Msg)] = true
+					return
+				}
+				panic(r)
+			}
+		}()
+		ex.inline(fr, st.clone(), pc, fn, args, binds, false, x.Pos())
+		ex.V.assumedAt[fmt.Sprintf("goroutine started at %s:%d (%s): body checked in the state at the go statement, as if it ran at once and alone", filepath.Base(where.Filename), where.Line, fn.Name())] = true
+	}()
 }
 
 func (ex *Exec) selectStmt(fr *Frame, st *State, pc *Term, x *ssa.Select) Value {
